@@ -41,7 +41,7 @@ import (
 type vfsEntry struct {
 	B  int `json:"b"`
 	St int `json:"st"`
-	Rl int `json:"rl"` // 1: header relinked to the hash stated for the previous entry
+	Rl int `json:"rl"` // 1: header relinked to the hash stated for the previous entry; 2: header with the all-zero parent hash
 }
 
 type vfsResp struct {
@@ -244,14 +244,19 @@ scenarios:
 						hdr = types.NewHeader(data[len(data)-1].Hash, hdr.StateRoot, hdr.ExtrinsicsRoot, hdr.Number, hdr.Digest)
 						stated = hdr.Hash()
 					}
+					if e.Rl == 2 {
+						// a different header: same number, the all-zero parent hash, honestly stated
+						hdr = types.NewHeader(common.Hash{}, hdr.StateRoot, hdr.ExtrinsicsRoot, hdr.Number, hdr.Digest)
+						stated = hdr.Hash()
+					}
 					bd := &types.BlockData{Hash: stated, Header: hdr, Body: &body}
 					// a block delivered again (another peer answering the same request, an overlapping range) may now carry the
 					// justification the first response lacked
-					if redelivered[e.B] && e.Rl != 1 && e.St == e.B && (e.B+si)%2 == 0 {
+					if redelivered[e.B] && e.Rl == 0 && e.St == e.B && (e.B+si)%2 == 0 {
 						just := []byte{0xbb, byte(e.B)}
 						bd.Justification = &just
 						counts["entries-with-unverifiable-justification"]++
-					} else if !redelivered[e.B] && e.Rl != 1 && e.St == e.B && (e.B+bi)%4 == 0 {
+					} else if !redelivered[e.B] && e.Rl == 0 && e.St == e.B && (e.B+bi)%4 == 0 {
 						// finality moves while the remaining fragments of this Process call are still waiting
 						just := []byte{0xaa, byte(e.B)}
 						bd.Justification = &just
